@@ -152,7 +152,7 @@ var stEnum = stats.New("enum")
 // order, under a list of configurations (limit classes, one failing event, one event with a
 // missing parent, one duplicate push). Quick: n = 3,4 with the full configuration list, n = 5 with
 // exact limits and nothing failing. Thorough: n = 3..5 full, n = 6 reduced (ample/exact limits
-// without failure, each single event failing Process).
+// without failure; each single event with >= 2 parents failing Process, ample limits).
 func TestC14Enum(t *testing.T) {
 	shard, nshards := tier.Shard()
 	type limPair struct{ num, size int }
@@ -190,6 +190,9 @@ func TestC14Enum(t *testing.T) {
 			}
 			// B: one failing event
 			for i := 0; i < n && (full || tier.Thorough()); i++ {
+				if !full && len(shapeSpecs(n, s, sizeMode)[i].Parents) < 2 {
+					continue // reduced list: only a failing event that can wait for two parents
+				}
 				modes := []int{failProcess, failCheck}
 				blims := []limPair{{limAmple, limAmple}, {limExact, limExact}, {lim1, limAmple}}
 				if !full {
